@@ -176,18 +176,12 @@ def regen_bincount():
     def add(tm):
         chunks.append(tm[0]); meta.append(tm[1])
     F = 'count_fragments_binned'
-    add(py2coq.translate_inline_test(p, F, ['max(0', 'max_fragment_size'], {}, 'g_f_start',
-                                     '(start max_fragment_size : Z)', repo_rel=rel, which='assign'))
-    add(py2coq.translate_inline_test(p, F, ['min(end'], {}, 'g_f_end',
-                                     '(end_ max_fragment_size contig_size : Z)', repo_rel=rel, which='assign'))
-    add(py2coq.translate_inline_test(p, F, ['site < start'], {}, 'g_not_owned',
-                                     '(site start end_ : Z)', repo_rel=rel, which='test'))
-    add(py2coq.translate_inline_test(p, F, ['int(site / bin_size)'], {}, 'g_bin_i',
-                                     '(site bin_size : Z)', repo_rel=rel, which='assign'))
-    add(py2coq.translate_inline_test(p, F, ['bin_size * bin_i'], {}, 'g_bin_start',
-                                     '(bin_size bin_i : Z)', repo_rel=rel, which='assign'))
-    add(py2coq.translate_inline_test(p, F, ['min(bin_size'], {}, 'g_bin_end',
-                                     '(bin_size bin_i contig_size : Z)', repo_rel=rel, which='assign'))
+    add(translate_assign(p, rel, F, 'f_start', 'g_f_start', ['start', 'max_fragment_size']))
+    add(translate_assign(p, rel, F, 'f_end', 'g_f_end', ['end', 'max_fragment_size', 'contig_size']))
+    add(translate_owner_test(p, rel, F))
+    add(translate_assign(p, rel, F, 'bin_i', 'g_bin_i', ['site', 'bin_size']))
+    add(translate_assign(p, rel, F, 'bin_start', 'g_bin_start', ['bin_size', 'bin_i']))
+    add(translate_assign(p, rel, F, 'bin_end', 'g_bin_end', ['bin_size', 'bin_i', 'contig_size']))
     _check_loop_shape(p)
     for tm in translate_generate_jobs(p, rel):
         add(tm)
@@ -198,6 +192,38 @@ def regen_bincount():
         add(tm)
     py2coq.write_gen(os.path.join(fw.COQ, 'Gen', 'GenBinCount.v'), '', chunks)
     return meta
+
+
+def translate_assign(path, rel, func, target, coqname, params):
+    """the unique assignment `target = <expr>` inside func; <expr> may only mention `params`"""
+    src = open(path).read()
+    fn = py2coq.find_function(ast.parse(src), func)
+    nodes = [n for n in ast.walk(fn) if isinstance(n, ast.Assign) and len(n.targets) == 1
+             and isinstance(n.targets[0], ast.Name) and n.targets[0].id == target]
+    if len(nodes) != 1:
+        raise Untranslatable('%s: expected exactly one assignment to %s, found %d' % (func, target, len(nodes)))
+    v = nodes[0].value
+    free = {n.id for n in ast.walk(v) if isinstance(n, ast.Name)} - {'max', 'min', 'int', 'abs'}
+    if not free <= set(params):
+        raise Untranslatable('%s: %s = %s mentions %r' % (func, target, ast.unparse(v), sorted(free - set(params))))
+    body = py2coq.ExprTranslator().z(v)
+    return _chunk(rel, v, src, coqname, '(%s : Z)' % ' '.join(py2coq.mangle(x) for x in params), body)
+
+
+def translate_owner_test(path, rel, func):
+    """the unique `if <test over site, start, end>: continue` inside func"""
+    src = open(path).read()
+    fn = py2coq.find_function(ast.parse(src), func)
+    nodes = []
+    for n in ast.walk(fn):
+        if isinstance(n, ast.If) and len(n.body) == 1 and isinstance(n.body[0], ast.Continue) and not n.orelse:
+            free = {x.id for x in ast.walk(n.test) if isinstance(x, ast.Name)}
+            if 'site' in free and free <= {'site', 'start', 'end'}:
+                nodes.append(n)
+    if len(nodes) != 1:
+        raise Untranslatable('%s: expected exactly one `if <site/start/end test>: continue`, found %d' % (func, len(nodes)))
+    t = nodes[0].test
+    return _chunk(rel, t, src, 'g_not_owned', '(site start end_ : Z)', py2coq.ExprTranslator().b(t))
 
 
 def _check_loop_shape(path):
@@ -216,9 +242,6 @@ def _check_loop_shape(path):
                         seen[x.id] += 1
     if seen != want:
         raise Untranslatable('count_fragments_binned: assignments to %r' % seen)
-    own = [n for n in ast.walk(fn) if isinstance(n, ast.If) and 'site < start' in ast.unparse(n.test)]
-    if len(own) != 1 or len(own[0].body) != 1 or not isinstance(own[0].body[0], ast.Continue) or own[0].orelse:
-        raise Untranslatable('count_fragments_binned: ownership test does not guard a bare continue')
     fetch = [n for n in ast.walk(fn) if isinstance(n, ast.Call) and isinstance(n.func, ast.Attribute) and n.func.attr == 'fetch']
     if len(fetch) != 1 or sorted((k.arg, ast.unparse(k.value)) for k in fetch[0].keywords) != \
             [('contig', 'contig'), ('start', 'f_start'), ('stop', 'f_end')] or fetch[0].args:
@@ -346,7 +369,16 @@ class Prop(fw.PropBase):
     ]
 
     def regen(self):
-        return regen_bincount()
+        try:
+            return regen_bincount()
+        except BaseException:
+            # fail closed: never prove / run against definitions generated from an older source
+            for ext in ('.v', '.vo', '.vos', '.vok', '.glob'):
+                try:
+                    os.remove(os.path.join(fw.COQ, 'Gen', 'GenBinCount' + ext))
+                except OSError:
+                    pass
+            raise
 
     # ---------------------------------------------------------------- generators
     def gen_lib(self, wild):
@@ -728,8 +760,7 @@ def _search(self):
             self.witnesses.append({'key': key, 'what': 'get_binned_counts(bin_size=%d, regions=%r): counts differ from one count per record '
                                                        'whose site lies in the regions' % (g['bin'], g['regions']),
                                    'input': g, 'impl': r, 'expected': exp})
-            if key != 'D15-region-edge':
-                break
+            break
 
 
 def _shrink(self, lib, run, rr):
@@ -746,7 +777,7 @@ def _shrink(self, lib, run, rr):
         if fails(lib, out):
             run, rr = run2, out
     for _ in range(8):
-        if len(lib['reads']) <= 1 or run.get('sched') is not None:
+        if len(lib['reads']) <= 1:
             break
         cands = [dict(lib, reads=lib['reads'][:i] + lib['reads'][i + 1:], runs=[run]) for i in range(len(lib['reads']))]
         # also try halves first
